@@ -525,7 +525,7 @@ pub fn c01(ctx: &mut Ctx) {
     // take-count calls up to a depth and every ending (collect / count / last / nth(remaining))
     {
         let depth = ctx.tier.pick(3u32, 4u32);
-        ctx.bound("iterator histories", format!("every iterator of every packet of the base set W and of every 1..=3-tile datagram of the tile menu: all call sequences of length <= {} over {{next, nth(0), nth(1), nth(2), nth(7), take(2).count()}} x 4 endings", depth));
+        ctx.bound("iterator histories", format!("every iterator of every packet of the base set W and of every 1..=3-tile datagram of the tile menu: all call sequences of length <= {} over {{next, nth(0), nth(1), nth(2), nth(7), take(2).count()}} x 10 endings, size_hint() after every call", depth));
         let b3 = bases.clone();
         let lim = if child { 0 } else { bytes::cross_limit(ctx) };
         ByteSpace::new("W", nb, move |idx, out| { out.clear(); out.extend_from_slice(&b3[idx as usize]); }).run(ctx, "W-iterator-histories", lim, |s, l| {
